@@ -1525,6 +1525,9 @@ def splice_fn(item_text, ann, log):
     # of a loop, or naming a temporary before it, then does not break an invariant-free fact (unit opt-out: rule NOLI)
     if rs.loops_in(body) and not ann.get('noaxioms') and 'NOLI' not in _ACTIVE_RULES and not any('loop_isolation' in a for a in attr_list):
         attr_list.append('#[verifier::loop_isolation(false)]')
+    # termination is claimed only where the unit gives a `decreases` clause
+    if rs.loops_in(body) and not ann.get('noaxioms') and not any('exec_allows_no_decreases_clause' in a for a in attr_list):
+        attr_list.append('#[verifier::exec_allows_no_decreases_clause]')
     attrs = ''.join(a + '\n' for a in attr_list)
     if lost:
         log.append(('LOST-ANCHOR', lost))
